@@ -937,6 +937,10 @@ class TCPHiddenServiceEndpointParser(object):
 
         # refuse what the endpoint would refuse before any Tor is
         # launched or contacted
+        if hiddenServiceDir is not None and singleHop:
+            raise ValueError(
+                "'singleHop=' flag only makes sense for ephemeral onions"
+            )
         if version == 3 and privateKey is not None \
            and ':' in privateKey and 'V3' not in privateKey:
             raise ValueError(
